@@ -114,6 +114,33 @@ def check(spec):
         exp = sorted(x for t, b in two for x in b)
         if got != exp:
             viol.append({'id': 'all-pulses-of-two-objects-not-all-loaded', 'expected': exp, 'observed': got})
+    # two sources with different voltages, named in DESCENDING pulse order: each voltage drives the pulse named with it
+    # (the right-hand side has V_k at pulse_k), and listing the sources in the other order changes nothing
+    if len(picks) >= 2:
+        (t1, k1), (t2, k2) = picks[0], picks[1]
+        p1, p2 = dict(blocks)[t1][k1], dict(blocks)[t2][k2]
+        if p1 != p2:
+            if p1 < p2:
+                (t1, k1, p1), (t2, k2, p2) = (t2, k2, p2), (t1, k1, p1)
+            base = [x for x in args if not x.startswith('--excitation')]
+            a1 = ['--excitation-pulse=%d,%d' % (k1 + 1, t1), '--excitation-voltage=1', '--excitation-pulse=%d,%d' % (k2 + 1, t2), '--excitation-voltage=0.25+0.5j']
+            a2 = ['--excitation-pulse=%d,%d' % (k2 + 1, t2), '--excitation-voltage=0.25+0.5j', '--excitation-pulse=%d,%d' % (k1 + 1, t1), '--excitation-voltage=1']
+            try:
+                ma, mb = build(base + a1), build(base + a2)
+                ma.compute()
+                mb.compute()
+                ia, ib = np.array(ma.current), np.array(mb.current)
+                if np.max(np.abs(ia - ib)) > 1e-9 * np.max(np.abs(ia)):
+                    viol.append({'id': 'sources-act-on-other-pulses-when-named-in-descending-order', 'pulses': [p1, p2],
+                                 'observed': float(np.max(np.abs(ia - ib)) / np.max(np.abs(ia)))})
+                r1, r2 = ma.rhs[p1 - 1], ma.rhs[p2 - 1]
+                g1 = 2 if ma.pulses[p1 - 1].ground.any() else 1
+                g2 = 2 if ma.pulses[p2 - 1].ground.any() else 1
+                if abs(r1 / g1 * (0.25 + 0.5j) - r2 / g2 * 1) > 1e-9 * abs(r1):
+                    viol.append({'id': 'right-hand-side-does-not-carry-each-voltage-at-its-named-pulse', 'pulses': [p1, p2],
+                                 'observed': [str(r1), str(r2)]})
+            except (ValueError, np.linalg.LinAlgError):
+                pass
     for v in viol:
         v['input'] = spec
     return viol
